@@ -32,7 +32,7 @@ def design_check(tier, mc="cfg/Data_mc.cfg", mc5="cfg/Data_mc5.cfg"):
 
 def walks(nwalk, depth, seed, cfg="cfg/Data_sim.cfg", module="Data_MC.tla"):
     env = None
-    sim = vlib.tlc_emit(module, cfg, simulate=max(1, nwalk // 8), depth=depth + 2, seed=seed + 1, workers=4, timeout=900)
+    sim = vlib.tlc_emit(module, cfg, simulate=max(1, nwalk // 4 + 1), depth=depth + 2, seed=seed + 1, workers=4, timeout=900)
     seen, w = set(), []
     for it in sim["items"]:
         k = json.dumps(it["h"], sort_keys=True)
@@ -40,7 +40,7 @@ def walks(nwalk, depth, seed, cfg="cfg/Data_sim.cfg", module="Data_MC.tla"):
             seen.add(k)
             w.append(it["h"])
     w = w[:nwalk]
-    if len(w) < nwalk // 2:
+    if len(w) < nwalk // 4:
         raise vlib.InfraError("simulation produced %d walks\n%s" % (len(w), sim["out"][-2000:]))
     return w
 
